@@ -19,6 +19,7 @@ RULE = ("valid generated programs of 3..12 statements, each statement laid out o
 RULE += (" " + 'Fault families beyond literals: operands that are names bound earlier, results of calling a function defined earlier, fields / elements selected from composites built earlier, results of instantiating a module defined earlier; faults inside the expression of a format template; run-on faults lacking closer and `;`; invalid regex, missing include, missing import.')
 RULE += (" " + 'Hosts whose fault only happens when a later statement runs them: function body called directly, through map / filter / reduce (list and tuple forms), through another function; module body and module out expression instantiated later.')
 RULE += (" " + 'Module parameters overridden with a value of another type (named operand, call result, literal, selected operand).')
+RULE += (" " + 'Let statements whose value does not fit a constraint given by a name bound earlier (exemplar, named constraint, tuple exemplar).')
 
 POS_RE = re.compile(r"line: ([0-9]+) column: ([0-9]+)")
 VIA_RE = re.compile(r"VIA: (?:file: \S+ )?line: ([0-9]+) column: ([0-9]+)")
